@@ -43,6 +43,7 @@ type zzSource struct {
 	withHash  bool  // data plan carries hashes/parents
 	version   func() int
 	getLog    [][2]uint64 // ghost: (start, limit) of every Get
+	mu        sync.Mutex
 	headFixed bool
 	head      uint64
 	nullAbove bool // Hash(n) for n above the head answers "no such block" (error after the fix)
@@ -86,7 +87,9 @@ func (s *zzSource) Hash(ctx context.Context, url string, n uint64) ([]byte, erro
 }
 
 func (s *zzSource) Get(ctx context.Context, url string, f *glf.Filter, start, limit uint64) ([]eth.Block, error) {
+	s.mu.Lock()
 	s.getLog = append(s.getLog, [2]uint64{start, limit})
+	s.mu.Unlock()
 	if zzFault("rpc:get") {
 		return nil, zzErrFault
 	}
